@@ -162,6 +162,9 @@ Definition subs_time_to_video (timeMS ts : Z) : Z := u64 (Z.quot (timeMS * ts) 1
 Definition scale_round (oldTS newTS t : Z) : Z :=
   roundFl (PrimFloat.mul (Zfl t) (PrimFloat.div (Zfl newTS) (Zfl oldTS))).
 
+(** exact twin: nearest integer of t*new/old, halves up *)
+Definition scale_exact (oldTS newTS t : Z) : Z := (2 * t * newTS + oldTS) / (2 * oldTS).
+
 Record sentry := { se_t : option Z; se_d : Z; se_r : Z }.
 
 Definition changeTimelineTimescale (oldTS newTS : Z) (stl : list sentry) : list sentry :=
